@@ -98,7 +98,7 @@ Proof. unfold hc_receive. destruct (receiver_receive (h_rcv h)) as [r out]. cbn 
 Lemma hc_step_inv h now h' : hc_step h now = Ok h' -> HcInv h -> HcInv h'.
 Proof.
   unfold hc_step. intros E [I W].
-  destruct (fq_forget_frames_total (h_fq h) (now - opt_default INITIAL_RTT_ESTIMATE_MS (sr_rtt_ms (h_src h)) * 4)
+  destruct (fq_forget_frames_total (h_fq h) (now - N.max (opt_default INITIAL_RTT_ESTIMATE_MS (sr_rtt_ms (h_src h)) * 4) (opt_default INITIAL_RTO_ESTIMATE_MS (sr_rto_ms (h_src h))))
               (sr_rtt_ms (h_src h)) I) as (q1 & E1 & I1).
   rewrite E1 in E. cbn [bind] in E.
   pose proof (fq_get_feedback_inv q1 now I1) as I2.
